@@ -373,7 +373,6 @@ _OPS = {'<': lambda a, b: a < b, '<=': lambda a, b: a <= b, '>': lambda a, b: a 
 
 class SymReal:
     """A real number of the deck: exact rational function of the symbolic inputs."""
-    __array_priority__ = 1000
     __slots__ = ('r', 'c')
 
     def __init__(self, e):
